@@ -166,7 +166,7 @@ pub fn run(a: &Args) {
 	let g = SlateGen::new(&mut rng);
 	let mut st = FieldStats::default();
 	let victim_outputs: Vec<OutputData> = w.wallets[0].all_outputs().unwrap_or_default();
-	let n_calls = if a.thorough() { 2500 } else { 260 };
+	let n_calls = if a.thorough() { 2500 } else { 600 };
 	let mut honest_slates: Vec<(Slate, Option<String>)> = vec![];
 	let spend0 = |w: &World| w.wallets[0].info(false, 1).map(|i| i.1.amount_currently_spendable).unwrap_or(0);
 
